@@ -255,65 +255,82 @@ def collectTerms : List (Except Err (Option Expr)) → Except Err (Option (List 
       | none => pure none
       | some ts => pure (some (t :: ts))
 
+/-! ### the recursion, one block per algorithm line; `rec` is the recursive call with the remaining budget -/
+
+abbrev Rec := Query → Except Err (Option Expr)
+
+/-- line 1 -/
+def step1 (q : Query) (G : MG Name) : Except Err (Option Expr) := do
+  pure (some (← canonicalize (line1 q.Y q.expr G)))
+
+/-- line 2 -/
+def step2 (rec : Rec) (q : Query) (anc : List Name) : Except Err (Option Expr) := do
+  let q' ← line2 q anc
+  c14nSafe (← rec q')
+
+/-- line 3 -/
+def step3 (rec : Rec) (q : Query) (extra : List Name) : Except Err (Option Expr) := do
+  c14nSafe (← rec (line3 q extra))
+
+/-- line 4: one recursive call per c-component of `G \ X`, product of the results, sum over the rest -/
+def step4 (rec : Rec) (q : Query) (G : MG Name) (dwi : List (List Name)) : Except Err (Option Expr) := do
+  match ← collectTerms ((line4 q G dwi).map rec) with
+  | none => pure none
+  | some terms =>
+    let summand ← canonicalize (productSafe terms)
+    pure (some (← canonicalize (sumSafe summand (plainVars (diff' (regularNodes G) (q.X ++ q.Y))))))
+
+/-- lines 6 and 7: try every source domain whose selection nodes are separated from the outcomes; the first
+domain (dictionary order) that yields an estimand wins.  `none`: go on to line 8. -/
+def step67 (sep : SepTest) (rec : Rec) (q : Query) : Except Err (Option Expr) :=
+  if q.active.isEmpty && !q.surr.isEmpty then do
+    let subs ← line6 sep q
+    let rs ← subs.mapM fun (d, s) => do
+      match ← rec s with
+      | none => pure none
+      | some e => pure (some (← activate s.active d e))
+    pure (rs.filterMap id).head?
+  else pure none
+
+/-- lines 8-11 -/
+def step811 (rec : Rec) (q : Query) (G : MG Name) (dwi : List (List Name)) : Except Err (Option Expr) :=
+  let districts := G.districts
+  if districts.length ≤ 1 then pure none
+  else match dwi with
+    | [] => throw (.internal "RuntimeError")
+    | c :: _ =>
+      if districts.any (fun d => seteq' d c) then do
+        pure (some (← canonicalize (← line9 q G c)))
+      else
+        -- line 10
+        match districts.filter (fun d => subset' c d) with
+        | [c'] => do
+          let surr' : Option (List (Pop × List Name)) ←
+            if q.active.isEmpty then pure (some [])
+            else if ← pillowHasTransport G c' then pure none
+            else pure (some q.surr)
+          match surr' with
+          | none => pure none
+          | some s =>
+            let q' ← line10 q G c' s
+            c14nSafe (← rec q')
+        | _ => throw (.internal "RuntimeError")
+
 /-- `trso(query)` with an explicit recursion budget -/
 def trsoF (sep : SepTest) : Nat → Query → Except Err (Option Expr)
   | 0, _ => .error (.internal "RecursionError")
   | fuel + 1, q => do
     let G ← q.graph
-    -- line 1
-    if q.X.isEmpty then
-      return some (← canonicalize (line1 q.Y q.expr G))
-    -- line 2
+    if q.X.isEmpty then step1 q G else do
     let anc ← G.ancestorsInclusive q.Y
-    if !(diff' (regularNodes G) anc).isEmpty then
-      let q' ← line2 q anc
-      return ← c14nSafe (← trsoF sep fuel q')
-    -- line 3
+    if !(diff' (regularNodes G) anc).isEmpty then step2 (trsoF sep fuel) q anc else do
     let extra ← noEffectOnOutcomes G q.X q.Y
-    if !extra.isEmpty then
-      return ← c14nSafe (← trsoF sep fuel (line3 q extra))
-    -- line 4
+    if !extra.isEmpty then step3 (trsoF sep fuel) q extra else do
     let dwi := (G.removeNodes q.X).districts
-    if dwi.length > 1 then
-      match ← collectTerms ((line4 q G dwi).map (trsoF sep fuel)) with
-      | none => return none
-      | some terms =>
-        let summand ← canonicalize (productSafe terms)
-        return some (← canonicalize (sumSafe summand (plainVars (diff' (regularNodes G) (q.X ++ q.Y)))))
-    -- line 6 / 7
-    let viaSource : Option Expr ←
-      if q.active.isEmpty && !q.surr.isEmpty then do
-        let subs ← line6 sep q
-        let rs ← subs.mapM fun (d, s) => do
-          match ← trsoF sep fuel s with
-          | none => pure none
-          | some e => pure (some (← activate s.active d e))
-        pure (rs.filterMap id).head?
-      else pure none
-    match viaSource with
-    | some e => return some (← canonicalize e)
-    | none =>
-    -- lines 8-11
-    let districts := G.districts
-    if districts.length ≤ 1 then return none
-    match dwi with
-    | [] => throw (.internal "RuntimeError")
-    | c :: _ =>
-      if districts.any (fun d => seteq' d c) then
-        return some (← canonicalize (← line9 q G c))
-      -- line 10
-      match districts.filter (fun d => subset' c d) with
-      | [c'] =>
-        let surr' : Option (List (Pop × List Name)) ←
-          if q.active.isEmpty then pure (some [])
-          else if ← pillowHasTransport G c' then pure none
-          else pure (some q.surr)
-        match surr' with
-        | none => return none
-        | some s =>
-          let q' ← line10 q G c' s
-          c14nSafe (← trsoF sep fuel q')
-      | _ => throw (.internal "RuntimeError")
+    if dwi.length > 1 then step4 (trsoF sep fuel) q G dwi else do
+    match ← step67 sep (trsoF sep fuel) q with
+    | some e => pure (some (← canonicalize e))
+    | none => step811 (trsoF sep fuel) q G dwi
 
 /-- `trso(query)` -/
 def trso (sep : SepTest) (q : Query) : Except Err (Option Expr) := trsoF sep q.fuel q
